@@ -87,6 +87,7 @@ func cmdSelftest(args []string) int {
 				failed++
 			}
 		}
+		e.resolveLoops()
 		unknownLoops := 0
 		for _, v := range e.loopsSeen {
 			if !strings.HasPrefix(v, "ok: ") {
